@@ -36,34 +36,41 @@ VARIABLES now,
           pend,                 \* R's engine: sequence number -> expiry of the outstanding fetch Interest (Data is accepted by the engine
                                 \* only for a pending Interest, and resolves every pending Interest of that name at once)
           fq,                   \* debounced fetches scheduled by RSync and not yet fired (sequence numbers)
+          nface, nactive,       \* R: face the neighbour is reached over (0: none) and whether that face is an active (outgoing) one
+          nroutes,              \* forwarder: faces on which the neighbour's routes (its advertisement prefix, the sync prefixes) are registered
           ev
-vars == <<now, pseq, pcont, syncs, fetches, datas, cur, gens, aseq, objadv, parked, applied, seen, pend, fq, ev>>
+vars == <<now, pseq, pcont, syncs, fetches, datas, cur, gens, aseq, objadv, parked, applied, seen, pend, fq, nface, nactive, nroutes, ev>>
 
 Init == /\ now = 0 /\ pseq = 0 /\ pcont = 0 /\ syncs = {} /\ fetches = {} /\ datas = {}
-        /\ cur = 0 /\ gens = 0 /\ aseq = 0 /\ objadv = <<>> /\ parked = <<>> /\ applied = 0 /\ seen = 0 /\ pend = <<>> /\ fq = {}
+        /\ cur = 0 /\ gens = 0 /\ aseq = 0 /\ objadv = <<>> /\ parked = <<>> /\ applied = 0 /\ seen = 0 /\ pend = <<>> /\ fq = {} /\ nface = 0 /\ nactive = FALSE /\ nroutes = {}
         /\ ev = [kind |-> "0"]
 
 (* ---- publisher ------------------------------------------------------------- *)
 \* P's table changed: new content, next sequence number, a Sync Interest announcing it (advertSyncNotifyNew)
 PChange == /\ pcont' = pcont + 1 /\ pseq' = pseq + 1 /\ syncs' = syncs \cup {pseq + 1}
            /\ ev' = [kind |-> "pchange"]
-           /\ UNCHANGED <<now, fetches, datas, cur, gens, aseq, objadv, parked, applied, seen, pend, fq>>
+           /\ UNCHANGED <<now, fetches, datas, cur, gens, aseq, objadv, parked, applied, seen, pend, fq, nface, nactive, nroutes>>
 \* heartbeat: the current number is announced again
 PBeat == /\ pseq > 0 /\ syncs' = syncs \cup {pseq} /\ ev' = [kind |-> "pbeat"]
-         /\ UNCHANGED <<now, pseq, pcont, fetches, datas, cur, gens, aseq, objadv, parked, applied, seen, pend, fq>>
+         /\ UNCHANGED <<now, pseq, pcont, fetches, datas, cur, gens, aseq, objadv, parked, applied, seen, pend, fq, nface, nactive, nroutes>>
 \* P answers a fetch for ANY sequence number with its latest advertisement (advertDataOnInterest)
 PReply(s) == /\ s \in fetches /\ datas' = datas \cup {[seq |-> s, c |-> pcont, t |-> now]} /\ ev' = [kind |-> "preply", s |-> s]
-             /\ UNCHANGED <<now, pseq, pcont, syncs, fetches, cur, gens, aseq, objadv, parked, applied, seen, pend, fq>>
+             /\ UNCHANGED <<now, pseq, pcont, syncs, fetches, cur, gens, aseq, objadv, parked, applied, seen, pend, fq, nface, nactive, nroutes>>
 
 (* ---- receiver -------------------------------------------------------------- *)
 \* a Sync Interest with sequence number s arrives (advertSyncOnInterest): the neighbour is created if unknown; a newer
 \* number is recorded and a fetch of it is scheduled (the observable `fetch`: a debounced advertDataFetch was spawned)
-RSync(s) ==
+\* the Sync Interest came in on `face`, under the active or the passive sync prefix (RecvPing, dv/table/neighbor_table.go): a
+\* ping on another face moves the neighbour's routes there, unless it is a passive ping while an active face is known
+Moves(face, active) == face # nface /\ ~(cur # 0 /\ nactive /\ ~active)
+RSync(s, face, active) ==
   /\ seen' = now
   /\ IF cur = 0 THEN /\ gens' = gens + 1 /\ cur' = gens + 1 /\ aseq' = s
                      /\ objadv' = objadv @@ ((gens + 1) :> 0) /\ parked' = parked @@ ((gens + 1) :> 0)
      ELSE IF aseq >= s THEN UNCHANGED <<gens, cur, aseq, objadv, parked>>
      ELSE aseq' = s /\ UNCHANGED <<gens, cur, objadv, parked>>
+  /\ IF Moves(face, active) THEN nface' = face /\ nactive' = active /\ nroutes' = {face}
+     ELSE UNCHANGED <<nface, nactive, nroutes>>
   /\ fq' = IF cur = 0 \/ aseq < s THEN fq \cup {s} ELSE fq
   /\ ev' = [kind |-> "rsync", s |-> s, fetch |-> (cur = 0 \/ aseq < s)]
   /\ UNCHANGED <<now, pseq, pcont, syncs, fetches, datas, applied, pend>>
@@ -74,7 +81,7 @@ RFetch(s) == /\ s \in fq /\ fq' = fq \ {s}
              /\ fetches' = (IF cur # 0 /\ aseq = s THEN fetches \cup {s} ELSE fetches)
              /\ pend' = (IF cur # 0 /\ aseq = s THEN AddPend(s) ELSE pend)
              /\ ev' = [kind |-> "rfetch", s |-> s, sent |-> (cur # 0 /\ aseq = s)]
-             /\ UNCHANGED <<now, pseq, pcont, syncs, datas, cur, gens, aseq, objadv, parked, applied, seen>>
+             /\ UNCHANGED <<now, pseq, pcont, syncs, datas, cur, gens, aseq, objadv, parked, applied, seen, nface, nactive, nroutes>>
 \* Data for number s with content c reaches the handler (advertDataHandler)
 Accepts(s) == cur # 0 /\ (IF "AcceptOlder" \in Dev THEN aseq >= s ELSE aseq = s)
 \* (t: when P produced it; the engine hands it to the handler only for a pending Interest, the network only while fresh)
@@ -86,7 +93,7 @@ RDataO(s, c, n, gone) ==
   /\ IF n > 0 /\ cur # 0 THEN /\ objadv' = [objadv EXCEPT ![cur] = c] /\ parked' = [parked EXCEPT ![cur] = @ + n]
      ELSE UNCHANGED <<objadv, parked>>
   /\ ev' = [kind |-> "rdata", s |-> s, c |-> c, n |-> n]
-  /\ UNCHANGED <<now, pseq, pcont, syncs, fetches, datas, cur, gens, aseq, applied, seen, fq>>
+  /\ UNCHANGED <<now, pseq, pcont, syncs, fetches, datas, cur, gens, aseq, applied, seen, fq, nface, nactive, nroutes>>
 RData(s, c, t) == IF Solicited(s, t) /\ Accepts(s) THEN RDataO(s, c, pend[s].cnt, TRUE)
                   ELSE RDataO(s, c, 0, Solicited(s, t))      \* resolved by the engine, refused by the handler
 \* what an observed acceptance must satisfy
@@ -97,24 +104,26 @@ RRib(g) ==
   /\ parked' = [parked EXCEPT ![g] = @ - 1]
   /\ applied' = IF objadv[g] # 0 THEN objadv[g] ELSE applied
   /\ ev' = [kind |-> "rrib", g |-> g]
-  /\ UNCHANGED <<now, pseq, pcont, syncs, fetches, datas, cur, gens, aseq, objadv, seen, pend, fq>>
+  /\ UNCHANGED <<now, pseq, pcont, syncs, fetches, datas, cur, gens, aseq, objadv, seen, pend, fq, nface, nactive, nroutes>>
 \* the fetch Interest of number s timed out: it is expressed again (subject to the same check as the first time)
 RTimeout(s) == /\ s \in DOMAIN pend /\ now >= pend[s].exp
                /\ pend' = [x \in DOMAIN pend \ {s} |-> pend[x]] /\ fq' = fq \cup {s}
                /\ ev' = [kind |-> "rtimeout", s |-> s]
-               /\ UNCHANGED <<now, pseq, pcont, syncs, fetches, datas, cur, gens, aseq, objadv, parked, applied, seen>>
+               /\ UNCHANGED <<now, pseq, pcont, syncs, fetches, datas, cur, gens, aseq, objadv, parked, applied, seen, nface, nactive, nroutes>>
 \* the dead-neighbour check: a neighbour silent for more than DeadInt is removed, its object cleared, its routes withdrawn
 IsDead == cur # 0 /\ now - seen > DeadInt
 \* `removed`: the check removed P (observable; the witness of the model is IsDead)
 RDeadO(removed) ==
-         /\ IF removed /\ cur # 0 THEN /\ cur' = 0 /\ applied' = 0 /\ aseq' = 0
-                                        /\ objadv' = IF "KeepAdvertOnRemove" \in Dev THEN objadv ELSE [objadv EXCEPT ![cur] = 0]
-            ELSE UNCHANGED <<cur, applied, aseq, objadv>>
-         /\ ev' = [kind |-> "rdead", removed |-> removed]
-         /\ UNCHANGED <<now, pseq, pcont, syncs, fetches, datas, gens, parked, seen, pend, fq>>
+  /\ IF removed /\ cur # 0
+     THEN /\ cur' = 0 /\ applied' = 0 /\ aseq' = 0
+          /\ objadv' = (IF "KeepAdvertOnRemove" \in Dev THEN objadv ELSE [objadv EXCEPT ![cur] = 0])
+          /\ nface' = 0 /\ nactive' = FALSE /\ nroutes' = {}      \* its routes are withdrawn
+     ELSE UNCHANGED <<cur, applied, aseq, objadv, nface, nactive, nroutes>>
+  /\ ev' = [kind |-> "rdead", removed |-> removed]
+  /\ UNCHANGED <<now, pseq, pcont, syncs, fetches, datas, gens, parked, seen, pend, fq>>
 RDead == RDeadO(IsDead)
 \* (the debounce of a scheduled fetch is far shorter than a tick: none is outstanding when time advances)
-Tick == fq = {} /\ now' = now + 1 /\ ev' = [kind |-> "tick"] /\ UNCHANGED <<pseq, pcont, syncs, fetches, datas, cur, gens, aseq, objadv, parked, applied, seen, pend, fq>>
+Tick == fq = {} /\ now' = now + 1 /\ ev' = [kind |-> "tick"] /\ UNCHANGED <<pseq, pcont, syncs, fetches, datas, cur, gens, aseq, objadv, parked, applied, seen, pend, fq, nface, nactive, nroutes>>
 
 (* ---- properties -------------------------------------------------------------- *)
 \* whenever R knows P's latest number and nothing is under way (no fetch scheduled or pending, no update queued),
@@ -125,6 +134,9 @@ Quiescent == cur # 0 /\ aseq = pseq /\ aseq \notin DOMAIN pend /\ fq = {} /\ \A 
 QuiescentCorrect == Quiescent => applied = pcont
 \* once P was removed nothing of it comes back until an advertisement is accepted by a NEW neighbour object
 NoResurrect == [][(ev'.kind = "rrib" /\ ev'.g # cur) => applied' = applied]_vars
+\* the neighbour's routes are registered on the face it is reached over, and nowhere once it is gone (C19: nothing is
+\* left on faces a neighbour no longer uses)
+RoutesFollowFace == nroutes = (IF cur # 0 /\ nface # 0 THEN {nface} ELSE {})
 \* only content that P published, under a number P announced
 Sane == /\ applied <= pcont /\ aseq <= pseq
         /\ \A g \in DOMAIN objadv : objadv[g] <= pcont
